@@ -23,6 +23,7 @@ PI == INSTANCE ParserImpl
 F  == INSTANCE BinsonFormat
 C  == INSTANCE Cursor
 E  == INSTANCE Emit
+CI == INSTANCE ClassImpl
 
 VARIABLES phase, buf, bstk, nodes, tree, P, c, hex, path, bad
 vars == <<phase, buf, bstk, nodes, tree, P, c, hex, path, bad>>
@@ -158,7 +159,15 @@ Reuse ==
      \/ LET i == PI!ResetCall(P, buf) IN Again("rs", i.P, i.ret)
      \/ LET i == PI!Verify(P, buf) IN Again("v", i.P, i.ret)
 
-Next == Build \/ Start \/ Nav \/ Reuse
+\* C10: walk the whole document with the parser and hand every decoded name and value to the
+\* writer; Layer A requires the output to be the input (the replayer does the transcription)
+Transcribe ==
+  /\ phase = "nav" /\ bad = "" /\ "transcribe" \in Ops /\ c.mode = "fresh"
+  /\ c' = [mode |-> "left", stk |-> <<>>] /\ path' = path \o "xc=1 "
+  /\ (EmitOn => PrintT(Line(path, E!Full("xc", "", "1", "0", "x", "x", "x", "x", ToString(Len(buf))))))
+  /\ UNCHANGED <<phase, buf, bstk, nodes, tree, hex, P, bad>>
+
+Next == Build \/ Start \/ Nav \/ Reuse \/ Transcribe
 Spec == Init /\ [][Next]_vars
 
 \* ---------- model-level properties (Layer I refines Layer A) --------------
@@ -172,6 +181,11 @@ FormatTheorems ==
          LET sub == F!Sub(buf, nd.off, nd.end - nd.off)
              r == F!Parse(sub, KindName(nd.t), 100) IN
          r.ok /\ F!ToVT(sub, r.node) = F!ToVT(buf, nd)
+
+\* C10 at model level: ParserImpl traversal composed with WriterImpl (through the ClassImpl scripts)
+TranscribeOK ==
+  (phase = "nav" /\ RootKind = "O" /\ "transcribe" \in Ops) =>
+     LET d == CI!DeserPtr(buf) IN d.ok /\ d.vt = F!ToVT(buf, tree) /\ CI!Serialize(d.vt) = buf
 
 \* ---------- constant values used by the .cfg files -------------------------
 ValsInt1 == << <<16, 5>> >>
@@ -190,6 +204,7 @@ OpsNavE  == {"enter", "next", "leave", "raw", "nextens"}
 OpsNav   == {"enter", "next", "leave", "raw"}
 OpsAll   == {"enter", "next", "leave", "raw", "field", "nextens", "fieldens"}
 OpsLook  == {"enter", "next", "leave", "field", "fieldens"}
+OpsTrans == {"transcribe"}
 OpsReuse == {"enter", "next", "leave", "raw", "field", "reuse"}
 RootsOA  == {"O", "A"}
 RootsO   == {"O"}
